@@ -201,7 +201,16 @@ pub fn gen_case(g: &mut Gen, rich: bool) -> Case {
 }
 
 pub fn compare_with_denotation(z: &ZoneModel, parsed: &Zone) -> Result<(), (String, String)> {
-    let got = ZoneModel::from_impl(parsed).canonical();
+    // what the implementation stores, as stored (no clamping on our side: the
+    // raise to the SOA minimum is the implementation's job) ...
+    let g = ZoneModel::from_impl(parsed);
+    let mut stored = g.recs.clone();
+    for r in &mut stored {
+        r.owner = r.owner.lower();
+    }
+    stored.sort();
+    let got = (g.apex.lower(), g.soa.clone(), stored);
+    // ... against what the text denotes (TTLs raised by the model)
     let want = z.canonical();
     if got.0 != want.0 {
         return Err(("wrong-apex".into(), format!("apex {} instead of {}", got.0, want.0)));
